@@ -1,4 +1,5 @@
 import Hl7.Lemmas.Groups
+import Hl7.Lemmas.GroupSound
 import Hl7.Gen.V2_5
 /-!
 # C08 / C03 — Group finding only appends in document order; with groups off nothing is dropped
@@ -9,6 +10,9 @@ zipper).  Proved for **every structure, every text, both validation levels**:
 * `C08_order`: with group finding on, flattening the resulting tree yields a *sublist* of the
   segments parsed from the input lines, in document order; every element of it is the parse of its
   own line (nothing is invented, duplicated or reordered).
+* `C08_sound`: every group node of the resulting tree is a declared group row of the element it sits in, carrying exactly
+  that row's own structure, at every depth (the tree is a sub-structure of the message structure: no group is invented,
+  none is attached to an element that does not declare it).
 * `C03_flat_keeps_all`: with group finding off the result is exactly the parsed lines, all of them.
 * `C08_deterministic`: the tree is a function of (tables, text, delimiters, level) — trivially, it is
   a Lean function; stated for completeness.
@@ -75,6 +79,49 @@ theorem C08_order (T : Tables) (text : Str) (ec : EC) (strict : Bool) (rows : Li
     obtain ⟨added, h1, h2⟩ := foldl_place_sublist T ec strict lines _ st hf
     rw [finish_flat _ st (by omega), h1]
     simpa [St.flatAll, flatL, pending] using h2
+
+
+theorem foldl_place_ok (T : Tables) (ec : EC) (strict : Bool) (lines : List Str) :
+    ∀ (s s' : St),
+      lines.foldlM (fun (s : St) l =>
+        place T strict (String.ofList (l.take 3)) (fun _ => Pe.segment T (strip l) ec strict) (s.frames.length + 1) s) s = .ok s' →
+      s.Ok → s'.Ok ∧ s'.topRows = s.topRows := by
+  induction lines with
+  | nil =>
+    intro s s' h hok
+    simp [List.foldlM, pure, Except.pure] at h
+    cases h
+    exact ⟨hok, rfl⟩
+  | cons l ls ih =>
+    intro s s' h hok
+    simp only [List.foldlM, bind, Except.bind] at h
+    cases hp : place T strict (String.ofList (l.take 3)) (fun _ => Pe.segment T (strip l) ec strict) (s.frames.length + 1) s with
+    | error e => simp [hp] at h
+    | ok s1 =>
+      simp only [hp] at h
+      obtain ⟨h1, h2⟩ := place_ok T strict _ _ _ s s1 hp hok
+      obtain ⟨h3, h4⟩ := ih s1 s' h h1
+      exact ⟨h3, by rw [h4, h2]⟩
+
+/-- **C08 (soundness).** With group finding on, every group in the resulting tree is a declared child of the element it is
+    put in, with exactly the declared structure, recursively — for every structure, every text, both levels. -/
+theorem C08_sound (T : Tables) (text : Str) (ec : EC) (strict : Bool) (rows : List SRow)
+    (nodes : List Node) (h : parseSegments T text ec strict (some rows) true = .ok nodes) : GSoundL rows nodes := by
+  unfold parseSegments at h
+  simp only [bind, Except.bind] at h
+  generalize hl : (splitOn '\r' text).filter (fun l => !l.isEmpty) = lines at h
+  cases hf : lines.foldlM (fun (s : St) l =>
+      place T strict (String.ofList (l.take 3)) (fun _ => Pe.segment T (strip l) ec strict) (s.frames.length + 1) s)
+      (⟨[], rows, []⟩ : St) with
+  | error e => simp [hf] at h
+  | ok st =>
+    simp only [hf, pure, Except.pure] at h
+    cases h
+    have h0 : (⟨[], rows, []⟩ : St).Ok := ⟨by simp [GSoundL], by simp [framesOk]⟩
+    obtain ⟨h1, h2⟩ := foldl_place_ok T ec strict lines _ st hf h0
+    have := finish_ok (st.frames.length + 1) st h1 (by omega)
+    rw [h2] at this
+    exact this
 
 theorem mapM_parse_flat (T : Tables) (ec : EC) (strict : Bool) (lines : List Str) :
     ∀ nodes, lines.mapM (parseLine T ec strict) = .ok nodes →
